@@ -28,13 +28,23 @@ func init() {
 			// of the list helpers)
 			for _, p := range c.primInstances() {
 				p := p
-				if p.Family != "ReadFixedStringListTrimPadding" || (p.TArgs[0] != "uint8" && p.TArgs[0] != "uint16") {
+				if p.Family != "ReadFixedStringListTrimPadding" || (!c.thorough() && p.TArgs[0] != "uint8" && p.TArgs[0] != "uint16") {
 					continue
 				}
-				for _, N := range []int{3, 8} {
-					for _, side := range []bool{false, true} {
-						N, side := N, side
-						items = append(items, Item{ID: fmt.Sprintf("list-read:%s/N=%d/%s", p.Name, N, map[bool]string{false: "right", true: "left"}[side]), Run: func(c *Ctx) { c13listRead(c, p, N, 2, side) }})
+				widths, counts := []int{3, 8}, []int{2}
+				if c.thorough() {
+					widths, counts = []int{1, 2, 3, 4, 8, 16}, []int{2, 3}
+				}
+				for _, N := range widths {
+					for _, n := range counts {
+						for _, side := range []bool{false, true} {
+							N, n, side := N, n, side
+							id := fmt.Sprintf("list-read:%s/N=%d/%s", p.Name, N, map[bool]string{false: "right", true: "left"}[side])
+							if n != 2 {
+								id += fmt.Sprintf("/n=%d", n)
+							}
+							items = append(items, Item{ID: id, Run: func(c *Ctx) { c13listRead(c, p, N, n, side) }})
+						}
 					}
 				}
 			}
